@@ -783,7 +783,6 @@ package memefish
 // @   ensures[C05] inside: (result1 < 0 && len(result0) == 0) || (old(p.Lexer.Token.Pos) < result1 && result1 < p.Lexer.Token.Pos && within(result0, old(p.Lexer.Token.Pos) + 1, result1))
 // @   ensures[C05,C06] rparen: len(p.errors) == old(len(p.errors)) ==> (result1 >= 0 && result1 + 1 == trivStart(p.Lexer)) || (result1 < 0 && lexUnmoved(p, old(p.Lexer.Token.Pos), old(trivStart(p.Lexer))))
 
-
 // Types that may end at the first half of a '>>' (the parser splits that token in place): their range
 // ends at the end of the last consumed token, or - right after a split - where the second '>' starts.
 // @ func memefish.(*Parser).parseArrayType
@@ -796,7 +795,6 @@ package memefish
 // @   inherit parser
 // @   ensures[C05] inside: old(p.Lexer.Token.Pos) <= result1 && result1 < p.Lexer.Token.Pos && within(result0, old(p.Lexer.Token.Pos), result1)
 // @   ensures[C05,C06] gtpos: len(p.errors) == old(len(p.errors)) ==> result1 >= 0 && (result1 + 1 == trivStart(p.Lexer) || (p.Lexer.Token.Kind == ">" && result1 + 1 == p.Lexer.Token.Pos))
-
 
 // Lists that may be empty (C06): nothing consumed while the list is empty, exact span afterwards.
 // @ func memefish.(*Parser).parsePipeOperators
